@@ -641,13 +641,18 @@ class DynamicBayesianNetwork(DAG):
                 if all(x[1] == parents[0][1] for x in parents):
                     if parents:
                         evidence_card = cpd.cardinality[1:]
+                        # Keep the evidence order of the CPD that is copied (the values
+                        # are laid out in that order), only move it to the other slice.
+                        evidence = [
+                            DynamicNode(var, temp_var[1]) for var, _ in cpd.variables[1:]
+                        ]
                         new_cpd = TabularCPD(
                             temp_var,
                             cpd.variable_card,
                             cpd.values.reshape(
                                 cpd.variable_card, np.prod(evidence_card)
                             ),
-                            parents,
+                            evidence,
                             evidence_card,
                         )
                     else:
